@@ -382,6 +382,17 @@ def json_desc(kind, desc, highs):
     return d
 
 
+def half_times(desc):
+    """The same instance on a half-step clock: every window bound, travel time and grid point divided by two (exact in
+    floats).  The combinatorics are unchanged, but times are no longer integers."""
+    d = dict(desc)
+    d["nodes"] = [(nm, dem, lo / 2, hi if hi == INF else hi / 2) for (nm, dem, lo, hi) in desc["nodes"]]
+    d["arcs"] = [(o, dd, t / 2, c) for (o, dd, t, c) in desc["arcs"]]
+    d["time_points"] = [t / 2 for t in desc["time_points"]]
+    d["half_step_clock"] = True
+    return d
+
+
 def _instance_job(job):
     kind, desc, highs = job
     import logging
@@ -408,6 +419,8 @@ def sweep_instances(ctx, dist, reported):
     for w, (kinds, desc, fam) in enumerate(work):
         if w % 3 == 1:
             desc = dict(desc, query_first=True)
+        if w % 4 == 2:
+            desc = half_times(desc)
         for kind in kinds:
             # every high cost is used as first value in rotation; one instance in five runs all four
             firsts = HIGHS if w % 5 == 0 else [HIGHS[rot % 4]]
